@@ -39,6 +39,16 @@ CHECKS['C03'] = dict(
     design='4 (C03)',
     technique='Coq proofs about the fold of the leaf rule (latest argmax) + exhaustive vm_compute correspondence of the priority logic + sampled merge correspondence; Python latest-argmax oracle for replays')
 
+CHECKS['C04'] = dict(
+    text='Machine-checked: C04_exact / C04_exact_list (for ALL older trees - any depth, flags, key names - and all newer containers: if the newer node deletes, no older descendant '
+         'strictly outranks what the newer node offers at the same RELATIVE path, the newer node is not outranked and may create its paths, then the merged content is exactly the '
+         'newer content), C04_remove_key (value-less !del removes the key, mapping stays), C04_clear (!clear leaves an empty container of the original kind and flags), '
+         'C04_defaults (lists and function nodes delete by default - regenerated fact). Effective delete / priority logic tied exhaustively (T2), tree recursion by sampled correspondence. '
+         'Partial: the general protected-overlay form and !merge index-wise combination are decided by the correspondence plus a reference oracle, not by a theorem; '
+         'lists holding lower-priority elements are a recorded known finding (D18).',
+    design='4 (C04), 6 (D3, D4, D18)',
+    technique='Coq proof that pruning empties an unprotected subtree and the replacement keeps exactly the newer content; exhaustive flag correspondence; sampled merge correspondence; scenario oracle for replays')
+
 NOT_APPLICABLE = {}
 
 
